@@ -241,9 +241,12 @@ end Loop
 whose inode has `st_nlink == 0` and retries -/
 structure LShape where
   nlinkCheck : Bool
+  /-- extracted start-up order of `serve_unix`: `sock.listen()` comes before the `on_bound(path)` announcement (the
+  launcher's `_spawn_worker` returns when it reads that announcement) -/
+  listenFirst : Bool
 deriving Repr, DecidableEq
 
-def LShape.extracted : LShape := ⟨Gen.C33.filelockChecksNlink⟩
+def LShape.extracted : LShape := ⟨Gen.C33.filelockChecksNlink, Gen.C33.listenBeforeAnnounce⟩
 
 namespace Launch
 
@@ -252,7 +255,13 @@ abbrev Wid := Nat
 /-- one worker process of the endpoint -/
 inductive WSt where
   | unborn
-  | accepting (quiet : Nat)     -- in its accept loop; `quiet` = time of its last connection (or of its start)
+  | starting                    -- process created (`Popen`), `serve_unix` not yet at `_check_no_existing_listener`
+  | prechecked                  -- nobody was listening on the path; `_unlink_stale_unix_socket` not yet run
+  | cleared                     -- stale socket entry removed; not yet bound
+  | bound                       -- `sock.bind(path)` done: the path names this worker's socket; neither listening nor announced
+  | listening                   -- `sock.listen()` done, `on_bound` not yet called: connections are accepted by the kernel
+  | announced                   -- `on_bound(path)` called although the socket does NOT listen yet (only when `listenFirst` is false)
+  | accepting (quiet : Nat)     -- listening and announced, in its accept loop; `quiet` = time of its last connection (or of its start)
   | closed                      -- left the accept loop; `_unlink_bound_unix_socket` not yet started
   | checked (own : Bool)        -- `lstat` + identity comparison done, `unlink` not yet
   | gone
@@ -273,6 +282,7 @@ inductive Pc where
   | stale (g : Nat)                     -- launch: probe failed, before `_unlink_stale_socket`
   | metaW (g : Nat)                     -- launch: before `_write_meta`
   | spawning (g : Nat)                  -- launch: before `_spawn_worker`
+  | waiting (g : Nat) (w : Wid)         -- launch: inside `_spawn_worker`, worker `w` created, reading its stdout for `UNIX:<path>`
   | decided (g : Nat) (t0 : Nat)        -- launch: return value decided at `t0`, lock still held
   | failing (g : Nat)                   -- launch: an exception is propagating, lock still held
   | released (t0 : Option Nat)          -- launch: lock released (`some t0` = will return, `none` = will raise)
@@ -309,8 +319,14 @@ inductive Label where
   | probe (t : Tid) (ok : Bool)
   | unlinkStale (t : Tid) (ok : Bool)
   | writeMeta (t : Tid)
-  | spawn (t : Tid) (w : Wid)
-  | spawnFail (t : Tid)
+  | spawn (t : Tid) (w : Wid)          -- `subprocess.Popen`: worker process `w` exists
+  | spawnReady (t : Tid)               -- `_spawn_worker` read the worker's `UNIX:<path>` line and returned
+  | spawnFail (t : Tid)                -- `_spawn_worker` raised (the worker died before announcing, or never started)
+  | wCheck (w : Wid) (ok : Bool)       -- worker start-up: `_check_no_existing_listener` (`ok = false`: somebody listens → the worker dies)
+  | wClear (w : Wid)                   -- `_unlink_stale_unix_socket`
+  | wBind (w : Wid)                    -- `sock.bind(path)`
+  | wListen (w : Wid)                  -- `sock.listen()`
+  | wAnnounce (w : Wid)                -- `on_bound(path)`: the `UNIX:<path>` line is written
   | release (t : Tid)
   | ret (t : Tid)
   | raised (t : Tid)
@@ -323,8 +339,15 @@ inductive Label where
   | vars (sock : Option Wid) (hasMeta : Bool) (lockGen : Nat)   -- observation of the in-memory world
 deriving Repr, DecidableEq
 
+/-- a `connect()` to the worker's socket succeeds: it listens (the kernel queues the connection) and has not left its accept loop -/
 def isAccepting : WSt → Bool
   | .accepting _ => true
+  | .listening => true
+  | _ => false
+
+/-- the worker process exists and has not stopped accepting: start-up included -/
+def isAlive : WSt → Bool
+  | .starting | .prechecked | .cleared | .bound | .listening | .announced | .accepting _ => true
   | _ => false
 
 /-- `_probe(sock_path)`: the path names a worker that is accepting -/
@@ -410,13 +433,48 @@ def step (sh : LShape) (idle : Nat) (s : St) : Label → Option St
     match s.pc t with
     | .spawning g =>
       if w = s.nextW then
-        some (emit idle { s with ws := upd s.ws w (.accepting s.now), sock := some w, nextW := s.nextW + 1,
-                                 pc := upd s.pc t (.decided g s.now) } (.spawn w))
+        some (emit idle { s with ws := upd s.ws w .starting, nextW := s.nextW + 1, pc := upd s.pc t (.waiting g w) } (.spawn w))
       else none
+    | _ => none
+  | .spawnReady t =>
+    match s.pc t with
+    | .waiting g w =>
+      (match s.ws w with
+       | .accepting q => some { s with pc := upd s.pc t (.decided g q) }       -- announced after it listened: ready since `q`
+       | .announced => some { s with pc := upd s.pc t (.decided g s.now) }     -- announced, not listening
+       | _ => none)
     | _ => none
   | .spawnFail t =>
     match s.pc t with
     | .spawning g => some { s with pc := upd s.pc t (.failing g) }
+    | .waiting g w => if s.ws w = .gone then some { s with pc := upd s.pc t (.failing g) } else none
+    | _ => none
+  | .wCheck w ok =>
+    match s.ws w with
+    | .starting =>
+      if ok = !pathAccepting s then
+        (if ok then some { s with ws := upd s.ws w .prechecked }
+         else some (emit idle { s with ws := upd s.ws w .gone } (.exit w)))
+      else none
+    | _ => none
+  | .wClear w =>
+    match s.ws w with
+    | .prechecked => some { rmSock idle s with ws := upd s.ws w .cleared }
+    | _ => none
+  | .wBind w =>
+    match s.ws w with
+    | .cleared => if s.sock = none then some (emit idle { s with ws := upd s.ws w .bound, sock := some w } (.bind w)) else none
+    | _ => none
+  | .wListen w =>
+    match s.ws w with
+    | .bound => if sh.listenFirst then some (emit idle { s with ws := upd s.ws w .listening } (.ready w)) else none
+    | .announced =>
+      if sh.listenFirst then none else some (emit idle { s with ws := upd s.ws w (.accepting s.now) } (.ready w))
+    | _ => none
+  | .wAnnounce w =>
+    match s.ws w with
+    | .listening => some { s with ws := upd s.ws w (.accepting s.now) }
+    | .bound => if sh.listenFirst then none else some { s with ws := upd s.ws w .announced }
     | _ => none
   | .release t =>
     match s.pc t with
